@@ -1345,9 +1345,49 @@ func c11(c *Ctx) {
 	if p.fatal >= 3 {
 		c.Count("aborted-after-3-fatal")
 	}
+	// ---- thorough tier only: the concurrent scenarios once more in a child built WITH the race detector (the
+	// quick-tier child is built without it: races are C18's business, whose detector child re-implements these
+	// shapes).  A detector report with a frame of the library is reported here as well.
+	if !c.Quick() && p.fatal < 3 {
+		if rbin, _, err := BuildChildLines("C11", outAbs, "c11race", true); err != nil {
+			c.Count("race-child:setup-failed")
+		} else {
+			logp := filepath.Join(outAbs, "c11race-log")
+			rp := &parent{c: c, bin: rbin, env: append([]string{"GORACE=log_path=" + logp + " halt_on_error=0"}, p.env...)}
+			for n := 0; n < 1500 && rp.fatal < 3; n++ {
+				nconn, nkeys, ncallers := 2+rng.Intn(7), 1+rng.Intn(3), rng.Intn(5)
+				if nconn+ncallers > 10 {
+					ncallers = 10 - nconn
+				}
+				req := fmt.Sprintf("xconc %d %d %d %d", rng.Int63n(1<<40), nconn, nkeys, ncallers)
+				if n%6 == 5 {
+					req = fmt.Sprintf("xconc %d %d 1 %d %d", rng.Int63n(1<<40), 1+rng.Intn(2), 6+rng.Intn(7), 20+rng.Intn(280))
+				}
+				rp.record(rp.run(req), replayForm(req))
+				c.Count("conc:under-race-detector")
+			}
+			if rp.ch != nil {
+				rp.ch.Stop(20 * time.Second)
+			}
+			files, _ := filepath.Glob(logp + ".*")
+			for _, f := range files {
+				b, _ := os.ReadFile(f)
+				txt := string(b)
+				if i := strings.Index(txt, "WARNING: DATA RACE"); i >= 0 && strings.Contains(txt, "go-jt808/service.") {
+					c.Violate(Violation{Signature: "C11/race-report", What: "the Go race detector reported a data race while the registry scenarios ran",
+						Input: "regconc (any; thorough tier, detector child)", Observed: Trunc(txt[i:], 3000),
+						Required: "no data race in the library (property C18); " + required})
+					break
+				}
+			}
+		}
+	}
 	p.nxRoll()
 	c.Extra["noexist_answers"] = p.nxDoneCount
 	c.Extra["noexist_latency_us_max"] = p.nxDoneMax
 	c.Extra["noexist_slow_answers_asked_again"] = p.nxDoneSlow
+	if p.nxDoneSlow > 0 { // never a violation by itself, never silent either: bin/check prints a NOTE for this key
+		c.Dist["noexist:slow_answers_asked_again"] += int(p.nxDoneSlow)
+	}
 	c.Extra["noexist_latency_hist_lt1ms_lt10ms_lt100ms_lt1s_ge1s"] = p.nxDoneHist
 }
